@@ -583,7 +583,17 @@ func (e *Engine) specFunc(y *ECall, env *evalEnv) (Val, bool) {
 	case "acc":
 		return Val{S: app("addr_acc", e.bvOf(env.st, arg(0))), T: addrT}, true
 	case "bytes":
-		return Val{S: e.bvOf(env.st, arg(0)), T: bvT}, true
+		a0 := arg(0)
+		if a0.T != nil {
+			// a fixed-size byte array ([20]byte address, [32]byte hash): its whole content
+			if at, ok := types.Unalias(a0.T).Underlying().(*types.Array); ok {
+				return Val{S: app("bv_of", a0.S, "0", fmt.Sprint(at.Len())), T: bvT}, true
+			}
+			if a0.T == bvT {
+				return a0, true
+			}
+		}
+		return Val{S: e.bvOf(env.st, a0), T: bvT}, true
 	case "pair":
 		a, b := arg(0), arg(1)
 		ka, kb := e.specKey(a, env), e.specKey(b, env)
@@ -900,6 +910,10 @@ func (e *Engine) specFunc(y *ECall, env *evalEnv) (Val, bool) {
 			e.vc.declFun(fn, sorts, "BV")
 			return Val{S: app(fn, as...), T: bvT}, true
 		}
+	case "sha256":
+		e.declAddr()
+		e.vc.declFun("sha256f", []string{"BV"}, "BV")
+		return Val{S: app("sha256f", e.specKey(arg(0), env)), T: bvT}, true
 	case "bytescmp":
 		// bytescmp(a, b): bytes.Compare(a, b)
 		e.declBvCmp()
